@@ -390,6 +390,8 @@ class Facts:
         self.raw = raw
         self.meta = raw.get("_meta", {})
         self.bodies = [Body(j) for j in raw["bodies"]]
+        for b_ in self.bodies:
+            b_.fx = self        # lets body-level analyses look up closure bodies
         self.by_dp = {b.dp: b for b in self.bodies}
         self.by_path = defaultdict(list)
         for b in self.bodies:
@@ -443,6 +445,24 @@ class Facts:
                     if cb is not None and cb.kind != "Closure" and cb not in group and cb not in todo:
                         todo.append(cb)
         return group
+
+    def caller_roots(self, body):
+        """roots of the crate-local functions that call `body`'s root function, when there are at most two of them (a private helper):
+        used to let an audit of a function cover the helpers extracted from it"""
+        if getattr(self, "_callers", None) is None:
+            m = defaultdict(set)
+            for b in self.bodies:
+                for _, t in b.calls():
+                    cp = t["callee"].get("path")
+                    if cp:
+                        m[cp].add(b.root)
+            self._callers = m
+        root = self.by_dp.get(body.root_dp, body)
+        cs = {c for c in self._callers.get(root.path, set()) if c != root.root}
+        return sorted(cs) if 0 < len(cs) <= 2 else []
+
+    def alt_keys(self, body, key):
+        return tuple(key.replace("|%s|" % body.root, "|%s|" % c, 1) for c in self.caller_roots(body) if ("|%s|" % body.root) in key)
 
     def adt(self, path):
         for a in self.tables["adts"]:
